@@ -79,4 +79,20 @@ def gen_utils():
     out.append(_set_def("comparison", O.COMPARISON_OPS))
     out.append(_set_def("strict_comparison", O.STRICT_COMPARISON_OPS))
     out.append(_set_def("unstrict_comparison", O.UNSTRICT_COMPARISON_OPS))
+    # opcode tables (cancun rules) used by the compile_ir lowering model: name -> (ins, outs)
+    from vyper.compiler.settings import Settings, anchor_settings
+    from vyper.evm.opcodes import get_ir_opcodes, get_opcodes
+    with anchor_settings(Settings(evm_version="cancun")):
+        evm, ir = dict(get_opcodes()), dict(get_ir_opcodes())
+
+    def table(name, d):
+        rows = []
+        for k in sorted(d):
+            v = d[k]
+            if '"' in k or not isinstance(v[1], int) or not isinstance(v[2], int):
+                raise Unsupported(f"opcode table entry {k!r}: {v!r}")
+            rows.append(f'("{k}", ({v[1]}, {v[2]}))')
+        return (f"Definition {name} : list (string * (nat * nat)) :=\n  [" + ";\n   ".join(rows) + "]%string%nat.")
+    out.append(table("evm_opcodes", evm))
+    out.append(table("ir_opcodes", ir))
     return "\n\n".join(out) + "\n"
